@@ -1007,11 +1007,11 @@ theorem noOrphan_runTasks (S : Strs) (cfg : Cfg) (s : State) (h : NoOrphan s) : 
       | close b => exact noOrphan_backendClose S s0 b h0
   exact noOrphanX_keep _ _ none (keep_of_eq _ _ rfl rfl) (this s.tasks s h)
 
-theorem keep_expire (S : Strs) (s : State) : Keep s (expire S s) := by
+theorem keep_expire (S : Strs) (s : State) (n : Nat) : Keep s (expire S s n) := by
   unfold expire
   dsimp only
-  refine Keep.trans (b := List.foldl _ s s.timeouts) ?_ (keep_of_eq _ _ rfl rfl)
-  generalize s.timeouts = ts
+  refine Keep.trans (b := List.foldl _ s ((liveDeadlines s).take n)) ?_ (keep_of_eq _ _ rfl rfl)
+  generalize (liveDeadlines s).take n = ts
   induction ts generalizing s with
   | nil => exact Keep.refl s
   | cons f fs ih =>
@@ -1045,7 +1045,7 @@ theorem goodP_step (T : Tables) (S : Strs) (cfg : Cfg) (slotFn : Bytes → Nat) 
       | runTasks => exact Or.inr (noOrphan_runTasks S cfg s h)
       | backendBytes b chunk => exact goodP_backendBytes T S cfg slotFn s b chunk h
       | backendClose b => exact Or.inr (noOrphan_backendClose S s b h)
-      | expire => exact Or.inr (noOrphanX_keep _ _ none (keep_expire S s) h)
+      | expire n => exact Or.inr (noOrphanX_keep _ _ none (keep_expire S s n) h)
       | poolRemove p => exact Or.inr (noOrphanX_keep _ _ none (keep_of_eq _ _ (same_poolRemove s p).2 (bsame_poolRemove s p)) h)
 
 theorem goodP_run (T : Tables) (S : Strs) (cfg : Cfg) (slotFn : Bytes → Nat) (es : List Event) (s : State) (h : GoodP s) :
